@@ -41,7 +41,14 @@ Inductive pres :=
 | PBasicBadEsc                   (* Basic with a malformed percent escape (%zz) *)
 | PPost (s : seck)               (* client_id + client_secret in the form *)
 | PAssert (a : assk)             (* client_assertion + client_assertion_type *)
-| PBoth (b p : seck).            (* Basic and form secret together *)
+| PBoth (b p : seck)             (* Basic and form secret together *)
+(* cross-client presentations: a second, confidential client Y ("victim", [victim_reg]) exists,
+   the grant artefact of the case (code, refresh token, device code, token to introspect or
+   revoke) belongs to Y, and the request mixes the case's client X with Y's id *)
+| PXBasic                        (* Basic X:right secret of X, client_id=Y in the form *)
+| PXAssert                       (* valid assertion of X, client_id=Y in the form *)
+| PXPost                         (* client_id=X + right client_secret of X in the form, Basic Y:wrong secret *)
+| PXPostId.                      (* client_id=Y + right client_secret of X in the form *)
 
 Record cfg := mkCfg { f_post : bool; f_pkjwt : bool; f_refresh : bool;   (* op.Config flags *)
                       c_cc : bool; c_te : bool; c_dev : bool }.          (* optional storage capabilities *)
@@ -61,7 +68,8 @@ Inductive ecode := ENone | EInvalidRequest | EInvalidClient | EInvalidGrant | EU
                  | ENotOAuth   (* a JSON document whose error member is not in the vocabulary *)
                  | ENotJSON.   (* not a JSON document *)
 
-Inductive result := Granted | Refused (s : stclass) (e : ecode).
+Inductive result := Granted | Refused (s : stclass) (e : ecode)
+                  | Inactive.   (* introspection: 200 with active:false *)
 
 Definition grant_eqb (a b : grant) : bool :=
   match a, b with
@@ -87,6 +95,28 @@ Definition assertion_ok (rg : reg) (a : assk) : bool :=
 
 (* ValidateGrantType *)
 Definition registered (rg : reg) (g : grant) : bool := existsb (grant_eqb g) (r_grants rg).
+
+(* ---------------- cross-client presentations: which client and credential the parsers end up with *)
+
+Definition all_grants := [GCode; GRefresh; GCC; GBearer; GTE; GDevice; GImplicit].
+Definition victim_reg := mkReg true MBasic AWeb all_grants false.
+
+(* every parser lets Basic overwrite the form's client_id/client_secret and reads an assertion's
+   issuer, so: PXBasic, PXAssert name X (with a valid credential of X); PXPost, PXPostId name Y
+   (with a secret that is not Y's) *)
+Definition names_other_client (p : pres) : bool :=
+  match p with PXPost | PXPostId => true | _ => false end.
+Definition eff_pres (p : pres) : pres :=
+  match p with
+  | PXBasic => PBasic SRight false
+  | PXAssert => PAssert AOk
+  | PXPost => PBasic SWrong false
+  | PXPostId => PPost SWrong
+  | _ => p
+  end.
+(* the artefact belongs to the client the request names *)
+Definition own_artefact (p : pres) : bool :=
+  match p with PXBasic | PXAssert => false | _ => true end.
 
 (* ---------------- what the parsers see *)
 
@@ -143,8 +173,9 @@ Definition by_secret (c : cfg) (rg : reg) (sec : option seck) (k : result) : res
 
 (* ---------------- Provider router (op.NewProvider(...).Handler) *)
 
-Definition p_code (c : cfg) (rg : reg) (p : pres) : result :=
-  let k := if registered rg GCode then Granted else r4 EUnauthorizedClient in
+Definition p_code (c : cfg) (rg : reg) (p : pres) (own : bool) : result :=
+  let k := if negb own then r4 EInvalidGrant   (* client.GetID() != authReq.GetClientID() *)
+           else if registered rg GCode then Granted else r4 EUnauthorizedClient in
   match parse_creds p with
   | CBad => r4 EInvalidClient
   | CCreds id sec =>
@@ -156,17 +187,18 @@ Definition p_code (c : cfg) (rg : reg) (p : pres) : result :=
       end
   end.
 
-Definition p_refresh (c : cfg) (rg : reg) (p : pres) : result :=
+Definition p_refresh (c : cfg) (rg : reg) (p : pres) (own : bool) : result :=
+  let ok := if own then Granted else r4 EInvalidGrant in
   match parse_creds p with
   | CBad => r4 EInvalidClient
   | CCreds id sec =>
       match assertion_of p with
       | Some a => if negb (f_pkjwt c) then r4 EServerError
                   else private_jwt rg a (r4 EServerError)
-                         (if registered rg GRefresh then Granted else r4 EUnauthorizedClient)
+                         (if registered rg GRefresh then ok else r4 EUnauthorizedClient)
       | None => if negb (id && r_known rg) then r4 EServerError
                 else if negb (registered rg GRefresh) then r4 EUnauthorizedClient
-                else by_secret c rg sec Granted
+                else by_secret c rg sec ok
       end
   end.
 
@@ -219,47 +251,51 @@ Definition device_client_authenticated (c : cfg) (rg : reg) (au ba : bool) : boo
   end.
 
 (* no ValidateGrantType here: recorded finding Fxx-C05-4 *)
-Definition p_device (c : cfg) (rg : reg) (p : pres) : result :=
+Definition p_device (c : cfg) (rg : reg) (p : pres) (own : bool) : result :=
   match client_id_from_request rg p with
   | CidErr r => r
   | CidOk au ba =>
-      if negb (r_known rg) then r4 EServerError
+      if negb own then r4 EAccessDenied   (* GetDeviceAuthorizatonState(clientID, deviceCode) *)
+      else if negb (r_known rg) then r4 EServerError
       else if device_client_authenticated c rg au ba then Granted else r4 EInvalidClient
   end.
 
-Definition p_token (c : cfg) (rg : reg) (p : pres) (g : grant) : result :=
+Definition p_token (c : cfg) (rg : reg) (p : pres) (g : grant) (own : bool) : result :=
   match g with
-  | GCode => p_code c rg p
-  | GRefresh => if f_refresh c then p_refresh c rg p else r4 EUnsupportedGrantType
+  | GCode => p_code c rg p own
+  | GRefresh => if f_refresh c then p_refresh c rg p own else r4 EUnsupportedGrantType
   | GBearer => p_bearer rg
   | GTE => if c_te c then p_te c rg p else r4 EUnsupportedGrantType
   | GCC => if c_cc c then p_cc c rg p else r4 EUnsupportedGrantType
-  | GDevice => if c_dev c then p_device c rg p else r4 EUnsupportedGrantType
+  | GDevice => if c_dev c then p_device c rg p own else r4 EUnsupportedGrantType
   | GMissing => r4 EInvalidRequest
   | GImplicit | GUnknown => r4 EUnsupportedGrantType
   end.
 
-(* errors of the introspection endpoint are plain text 401 *)
-Definition p_introspect (rg : reg) (p : pres) : result :=
+(* errors of the introspection endpoint are plain text 401; SetIntrospectionFromToken fails for a
+   caller outside the token's audience *)
+Definition p_introspect (rg : reg) (p : pres) (own : bool) : result :=
   match client_id_from_request rg p with
-  | CidOk true _ => Granted
+  | CidOk true _ => if own then Granted else Inactive
   | _ => r4 ENotJSON
   end.
 
-Definition p_revoke (c : cfg) (rg : reg) (p : pres) : result :=
+(* Storage.RevokeToken refuses a token that belongs to another client *)
+Definition p_revoke (c : cfg) (rg : reg) (p : pres) (own : bool) : result :=
+  let ok := if own then Granted else r4 EInvalidClient in
   match assertion_of p with
   | Some a => if negb (f_pkjwt c) then r4 EInvalidClient
-              else if assertion_ok rg a then Granted else r5 EServerError
+              else if assertion_ok rg a then ok else r5 EServerError
   | None =>
       match basic_of p with
       | Some None => r4 EInvalidClient
-      | Some (Some s) => if secret_ok rg s then Granted else r4 EInvalidClient
+      | Some (Some s) => if secret_ok rg s then ok else r4 EInvalidClient
       | None =>
           if negb (form_id p && r_known rg) then r4 EInvalidClient
           else match form_secret p with
-               | None => if is_none (r_meth rg) then Granted else r4 EInvalidClient
+               | None => if is_none (r_meth rg) then ok else r4 EInvalidClient
                | Some s => if is_post (r_meth rg) && negb (f_post c) then r4 EInvalidClient
-                           else if secret_ok rg s then Granted else r4 EInvalidClient
+                           else if secret_ok rg s then ok else r4 EInvalidClient
                end
       end
   end.
@@ -311,11 +347,12 @@ Definition l_with_client (c : cfg) (rg : reg) (p : pres) (g : option grant) (k :
        | None => k
        end)).
 
-Definition l_token (c : cfg) (rg : reg) (p : pres) (g : grant) : result :=
+Definition l_token (c : cfg) (rg : reg) (p : pres) (g : grant) (own : bool) : result :=
   match g with
-  | GCode => l_with_client c rg p (Some GCode) Granted
+  | GCode => l_with_client c rg p (Some GCode) (if own then Granted else r4 EInvalidGrant)
   | GRefresh => l_with_client c rg p (Some GRefresh)
-                  (if f_refresh c then Granted else r4 EUnsupportedGrantType)
+                  (if negb (f_refresh c) then r4 EUnsupportedGrantType
+                   else if own then Granted else r4 EInvalidGrant)
   | GCC => l_with_client c rg p (Some GCC)
                   (if is_none (r_meth rg) then r4 EInvalidClient else Granted)
   | GBearer => if bearer_ok rg then Granted else r4 EInvalidRequest
@@ -323,23 +360,25 @@ Definition l_token (c : cfg) (rg : reg) (p : pres) (g : grant) : result :=
                   (if is_none (r_meth rg) then r4 EInvalidClient
                    else if c_te c then Granted else r4 EUnsupportedGrantType)
   | GDevice => l_with_client c rg p (Some GDevice)
-                  (if c_dev c then Granted else r4 EUnsupportedGrantType)
+                  (if negb (c_dev c) then r4 EUnsupportedGrantType
+                   else if own then Granted else r4 EAccessDenied)
   | GMissing => r4 EInvalidRequest
   | GImplicit | GUnknown => r4 EUnsupportedGrantType
   end.
 
-Definition l_introspect (rg : reg) (p : pres) : result :=
+Definition l_introspect (rg : reg) (p : pres) (own : bool) : result :=
+  let ok := if own then Granted else Inactive in
   l_parse p (fun id sec ass =>
     match ass with
-    | Some a => if assertion_ok rg a then Granted else r4 EUnauthorizedClient
+    | Some a => if assertion_ok rg a then ok else r4 EUnauthorizedClient
     | None => match sec with
               | None => r4 EInvalidClient
-              | Some s => if secret_ok rg s then Granted else r4 EUnauthorizedClient
+              | Some s => if secret_ok rg s then ok else r4 EUnauthorizedClient
               end
     end).
 
-Definition l_revoke (c : cfg) (rg : reg) (p : pres) : result :=
-  l_with_client c rg p None Granted.
+Definition l_revoke (c : cfg) (rg : reg) (p : pres) (own : bool) : result :=
+  l_with_client c rg p None (if own then Granted else r4 EInvalidClient).
 
 Definition l_device_authz (c : cfg) (rg : reg) (p : pres) : result :=
   l_with_client c rg p None
@@ -349,14 +388,16 @@ Definition l_device_authz (c : cfg) (rg : reg) (p : pres) : result :=
 
 (* ---------------- both routers *)
 
-Definition authenticate (r : router) (e : endpoint) (c : cfg) (rg : reg) (p : pres) (g : grant) : result :=
+(* [rg], [p]: the client and credential the request names; [own]: the grant artefact belongs to it *)
+Definition authenticate (r : router) (e : endpoint) (c : cfg) (rg : reg) (p : pres) (g : grant)
+    (own : bool) : result :=
   match r, e with
-  | RProvider, EToken => p_token c rg p g
-  | RProvider, EIntrospect => p_introspect rg p
-  | RProvider, ERevoke => p_revoke c rg p
+  | RProvider, EToken => p_token c rg p g own
+  | RProvider, EIntrospect => p_introspect rg p own
+  | RProvider, ERevoke => p_revoke c rg p own
   | RProvider, EDeviceAuthz => p_device_authz c rg p
-  | RLegacy, EToken => l_token c rg p g
-  | RLegacy, EIntrospect => l_introspect rg p
-  | RLegacy, ERevoke => l_revoke c rg p
+  | RLegacy, EToken => l_token c rg p g own
+  | RLegacy, EIntrospect => l_introspect rg p own
+  | RLegacy, ERevoke => l_revoke c rg p own
   | RLegacy, EDeviceAuthz => l_device_authz c rg p
   end.
